@@ -145,9 +145,14 @@ static void run_inflight(void)
 {
 	pthread_t r0, r1;
 	struct urcu_gp_poll_state h0, h1;
+	struct call_rcu_data *crdp = NULL;
 	int i;
 
 	rcu_register_thread();
+	if (vrt_param("helper", 0)) {	/* the polling worker callback is queued on a per-thread helper ... */
+		crdp = create_call_rcu_data(0, -1);
+		set_thread_call_rcu_data(crdp);
+	}
 	pthread_create(&r0, NULL, reader, (void *)0L);
 	vrt_await(ready_pred, (void *)1L);
 	ST(x[0], 1);
@@ -158,6 +163,10 @@ static void run_inflight(void)
 	ST(x[1], 1);
 	vrt_note_set(N_START(1), vrt_now() + 1);
 	h1 = start_poll_synchronize_rcu();
+	if (crdp) {			/* ... which is destroyed while the handles are pending: its callbacks are handed over */
+		set_thread_call_rcu_data(NULL);
+		call_rcu_data_free(crdp);
+	}
 	for (i = 0; !poll_state_synchronize_rcu(h1); i++) {
 		if (!vrt_note_get(N_TRUE(0)) && poll_state_synchronize_rcu(h0)) {
 			vrt_note_set(N_TRUE(0), vrt_now());
